@@ -34,6 +34,15 @@ def label_queries(labels, limit=6):
     return res
 
 
+def abandon(it, k=1):
+    """start an iterator and drop it after k items: later calls must not be affected by a half-consumed one"""
+    try:
+        for _ in range(k):
+            next(it)
+    except StopIteration:
+        pass
+
+
 def rawmask(v):
     """int mask of a raw bitset value (real bitsets: int subclass; model: SymInt concretised)"""
     return int(v)
@@ -48,6 +57,15 @@ def b01(ctx, orc, queries=None):
     got = [tuple(bool(x) for x in row) for row in ctx.bools]
     if got != orc.table:
         fails.append(f'bools {got!r} != table')
+    first = ctx.bools
+    try:       # what a caller does with a returned value must not change what the context reports afterwards
+        first.reverse()
+        first.append(('junk',))
+    except (AttributeError, TypeError):
+        pass
+    again = [tuple(bool(x) for x in row) for row in ctx.bools]
+    if again != orc.table:
+        fails.append(f'bools after the caller modified an earlier result: {again!r} != table')
     oq = label_queries(orc.objects) if queries is None else [q for side, q in queries if side == 'intension']
     pq = label_queries(orc.properties) if queries is None else [q for side, q in queries if side == 'extension']
     for q in oq:
@@ -144,6 +162,7 @@ def _multisets(cs, cap=400):
 def b03(ctx, orc):
     fails = []
     lat = ctx.lattice
+    abandon(iter(lat))
     got = [(tuple(e), tuple(i)) for e, i in lat]
     want = [(orc.olabels(e), orc.plabels(i)) for e, i in orc.concepts()]
     if sorted(got) != sorted(want):
@@ -168,6 +187,9 @@ def b04(ctx, orc):
     import concepts
     from concepts import algorithms
     fails = []
+    for g in (algorithms.iterconcepts, algorithms.fast_generate_from, algorithms.fcbo_dual):
+        abandon(iter(g(ctx)), 2)
+    any(True for _ in algorithms.iterconcepts(ctx))
     want = sorted((orc.olabels(e), orc.plabels(i)) for e, i in orc.concepts())
     outs = {
         'fast_generate_from': [(tuple(e.members()), tuple(i.members())) for e, i in algorithms.fast_generate_from(ctx)],
@@ -350,6 +372,11 @@ def b09(ctx, orc):
     fails = []
     lat = ctx.lattice
     cs = list(lat)
+    for c in cs:          # half-consumed traversals must not change what later traversals yield
+        abandon(c.upset())
+        abandon(c.downset(), 2)
+    abandon(lat.upset_union(cs[:2]))
+    abandon(lat.downset_union(iter(cs[-2:])))
     dsorted = sorted(cs, key=lambda c: c.dindex)
     ext = {id(c): _emask(orc, c) for c in cs}
     for c in cs:
@@ -393,6 +420,11 @@ def b10(ctx, orc):
             fails.append(f'labels of {c.extent!r} are not tuples')
         down = [d for d in cs if ext[id(d)] & e == ext[id(d)]]
         up = [d for d in cs if ext[id(d)] & e == e]
+        for rep in (1, 2):    # through the traversal API as well, twice
+            if sorted(o for d in c.downset() for o in d.objects) != sorted(c.extent):
+                fails.append(f'extent of {c.extent!r} is not the union of object labels over c.downset() (call {rep})')
+            if sorted(p for d in c.upset() for p in d.properties) != sorted(c.intent):
+                fails.append(f'intent of {c.extent!r} is not the union of property labels over c.upset() (call {rep})')
         if sorted(o for d in down for o in d.objects) != sorted(c.extent):
             fails.append(f'extent of {c.extent!r} is not the union of object labels in its downset')
         if sorted(p for d in up for p in d.properties) != sorted(c.intent):
@@ -414,6 +446,8 @@ def b10(ctx, orc):
 def b18(ctx, orc):
     fails = []
     lat = ctx.lattice
+    for c in lat:
+        abandon(iter(c.attributes()))
     for c in lat:
         e = _emask(orc, c)
         full_intent = orc.plabels(orc.intent(e))
@@ -572,6 +606,14 @@ def b19_ctor(concepts, objects, properties, rows):
     if tuple(c.objects) != tuple(objects) or tuple(c.properties) != tuple(properties) \
             or [tuple(bool(x) for x in r) for r in c.bools] != [tuple(bool(x) for x in r) for r in rows]:
         fails.append(f'accepted input not reproduced: {c.objects!r} {c.properties!r} {c.bools!r}')
+    first = c.bools
+    try:
+        first.reverse()
+        first.append(('junk',))
+    except (AttributeError, TypeError):
+        pass
+    if [tuple(bool(x) for x in r) for r in c.bools] != [tuple(bool(x) for x in r) for r in rows]:
+        fails.append(f'accepted input no longer reproduced after the caller modified an earlier bools result: {c.bools!r}')
     return fails
 
 
@@ -598,6 +640,13 @@ def fromdict_valid(d, flags):
 
 def b19_fromdict(concepts, d, flags):
     valid = fromdict_valid(d, flags)
+    try:     # an earlier valid, wider dict in the same process (see c19.unit_fromdict)
+        wide = list(range(len(d.get('properties', ())) + 2))
+        wrows = [[]] + [[i] for i in wide] + [[i, j] for i in wide for j in wide if i != j]
+        concepts.Context.fromdict({'objects': [f'w{k}' for k in range(len(wrows))],
+                                   'properties': [f'v{j}' for j in wide], 'context': wrows})
+    except Exception:
+        pass
     try:
         c = concepts.Context.fromdict(d, **flags)
     except ValueError:
@@ -843,7 +892,7 @@ def _perm_list(k):
     return out
 
 
-def b15(ctx, orc):
+def b15(ctx, orc, light=False):
     import concepts
     C = concepts.Context
     fails = []
@@ -851,9 +900,15 @@ def b15(ctx, orc):
     if base['covers'] != base['covers_from_lower']:
         fails.append('upper and lower neighbor links disagree')
     n, m = orc.n, orc.m
-    for rp in _perm_list(n):
-        for cp in _perm_list(m):
-            if rp == tuple(range(n)) and cp == tuple(range(m)):
+    idr, idc = tuple(range(n)), tuple(range(m))
+    rperms, cperms = _perm_list(n), _perm_list(m)
+    if light:
+        rperms, cperms = rperms[:3], cperms[:3]
+    combos = [(rp, idc) for rp in rperms] + [(idr, cp) for cp in cperms] + \
+        [(rp, cp) for rp, cp in zip(rperms[1:], reversed(cperms[1:]))]
+    for rp, cp in combos:
+        for _once in (0,):
+            if rp == idr and cp == idc:
                 continue
             objs = [orc.objects[i] for i in rp]
             props = [orc.properties[j] for j in cp]
@@ -880,6 +935,15 @@ def b15(ctx, orc):
     bl = [c for c in ctx.lattice]
     if len(tl) != len(bl):
         fails.append('transposed: number of concepts differs')
+    # transposition through Definition: dual lattice, and editing the transpose afterwards leaves the original alone
+    d0 = ctx.definition()
+    dt = d0.transposed()
+    if label_structure(C(*dt))['concepts'] != st['concepts'] or label_structure(C(*(-d0)))['concepts'] != st['concepts']:
+        fails.append('Definition.transposed(): not the dual lattice')
+    dt.add_object('copy_of_' + dt.objects[0], [p for p, b in zip(dt.properties, dt.bools[0]) if b])
+    dt.rename_property(dt.properties[-1], 'renamed')
+    if label_structure(C(*d0))['concepts'] != base['concepts']:
+        fails.append('editing a transposed definition changed the lattice of the original')
     # duplicated row / duplicated column / full column
     intents = frozenset(k[1] for k in base['concepts'])
     extents = frozenset(k[0] for k in base['concepts'])
